@@ -2,7 +2,7 @@
    Machines: Ops/Combinators.v (x_concat, x_catch, x_retry, x_repeat, x_oern,
    x_while_do, x_do_while, x_catch_handler), run by the runner of Ops/Multi.v. *)
 From RxVerif Require Import Base.Prelude Ops.Machine Ops.Multi Ops.MultiFacts Ops.RunLemmas
-  Ops.Combinators Ops.SequentialFacts.
+  Ops.Combinators Ops.SequentialFacts Ops.CatchFacts.
 
 (* for EVERY input sequence (arbitrary interleaving of all sources, conforming
    or not), at every moment at most one source is subscribed *)
@@ -52,6 +52,30 @@ Print Assumptions C10_catch_next_only_on_error.
 Print Assumptions C10_retry_next_only_on_error.
 Print Assumptions C10_repeat_next_only_on_completion.
 Print Assumptions C10_oern_next_only_on_termination.
+
+(* catch over any number of sources, in the sequential environment: the elements
+   of the consumed sources up to the first one that completes (completion passed
+   on) or never terminates; a failing source hands over to the next one, and only
+   the LAST source's error is passed on *)
+Theorem C10_catch_closed_form : forall A (srcs : list (list A * term)),
+  emitted (fst (run (x_catch (length srcs)) (seq_env_from 0 srcs))) = catch_spec srcs.
+Proof. exact @catch_closed_form. Qed.
+Print Assumptions C10_catch_closed_form.
+
+(* on_error_resume_next: every source is consumed to its end whichever way it
+   terminates; completion after the last one, never an error *)
+Theorem C10_oern_closed_form : forall A (srcs : list (list A * term)),
+  emitted (fst (run (x_oern (length srcs)) (seq_env_from 0 srcs))) = oern_spec srcs.
+Proof. exact @oern_closed_form. Qed.
+Print Assumptions C10_oern_closed_form.
+
+Example C10_witness_catch :
+  emitted (fst (run (x_catch 3) (seq_env_from 0 [([1; 2], TErr 7); ([3], TDone); ([4], TDone)])))
+  = [Next 1; Next 2; Next 3; Done].
+Proof. vm_compute. reflexivity. Qed.
+Example C10_witness_oern :
+  emitted (fst (run (x_oern 2) (seq_env_from 0 [([1], TErr 7); ([2], TErr 8)]))) = [Next 1; Next 2; Done].
+Proof. vm_compute. reflexivity. Qed.
 
 Example C10_witness_concat :
   emitted (fst (run (x_concat 2) (seq_env_from 0 [([1; 2], TDone); ([3], TDone)])))
